@@ -97,6 +97,7 @@ class Program:
         self.struct_fields = {}   # tag -> [names]
         self.variants = {}        # variant tag -> index (crate enums, read from source)
         self.const_models = []
+        self.forced_models = []   # (regex, model): library code whose derive-generated body is in the dump but is modelled instead
         self._src = {}
         self._index()
         self._enum_index()
@@ -274,6 +275,8 @@ class Program:
     # ---------- call resolution ------------------------------------------------------------------
     def resolve_call(self, fn, callee):
         key = strip_generics(callee)
+        for rx_, h in self.forced_models:
+            if rx_.search(key): return ('model', h, key)
         d = self.by_key.get(key)
         if d is None and key.startswith('<'):
             d = None
